@@ -333,6 +333,9 @@ def replay(data):
             for k, v in zip(tt.inputs, tt.outputs):
                 if tt.mapping[k].name != v.name:
                     bad.append((kw, 'columns', [x.name for x in k], v.name))
+            n = len(logic.Meta.values) ** op.arity
+            if not (len(tt.mapping) == len(tuple(tt.inputs)) == len(tuple(tt.outputs)) == n):
+                bad.append((kw, 'incomplete', len(tt.mapping), len(tuple(tt.inputs)), len(tuple(tt.outputs)), n))
         return bool(bad), f'{data["logic"]} truth_table({data["operator"]}): {bad[:3]}'
     if kind == 'modalbase':
         base = registry(data['base'])
